@@ -665,12 +665,15 @@ pub(super) fn adds(
         )
         .unwrap();
 
-        // store result
-        operand_store(block, &instruction.operands()[0], result)?;
+        // The flags are computed from the operands, so they are assigned before
+        // the destination (which may be one of the operands) is written.
         block.assign(scalar!("n"), n);
         block.assign(scalar!("z"), z);
         block.assign(scalar!("c"), c);
         block.assign(scalar!("v"), v);
+
+        // store result
+        operand_store(block, &instruction.operands()[0], result)?;
 
         block.index()
     };
@@ -1436,12 +1439,15 @@ pub(super) fn subs(
         )
         .unwrap();
 
-        // store result
-        operand_store(block, &instruction.operands()[0], result)?;
+        // The flags are computed from the operands, so they are assigned before
+        // the destination (which may be one of the operands) is written.
         block.assign(scalar!("n"), n);
         block.assign(scalar!("z"), z);
         block.assign(scalar!("c"), c);
         block.assign(scalar!("v"), v);
+
+        // store result
+        operand_store(block, &instruction.operands()[0], result)?;
 
         block.index()
     };
